@@ -112,7 +112,8 @@ def main(ck):
         return replay(ck, binp, srv, conf, wdir, port)
     nds, ncases = (4, 80) if ck.tier == "quick" else (24, 250)
     ck.log("harness: %d data sets x %d cases" % (nds, ncases))
-    rc, out = ck.run([binp, "run", srv, conf, wdir, str(port), str(nds), str(ncases)], timeout=3000)
+    rc, out = ck.run([binp, "run", srv, conf, wdir, str(port), str(nds), str(ncases)], timeout=3000,
+                     env={"HOME": ck.work})   # the repository's default logger writes under $HOME/.openGemini
     ck.log("harness done rc=%d" % rc)
     cases, datasets, done = [], [], None
     for l in out.splitlines():
@@ -247,6 +248,15 @@ def main(ck):
         ck.nofail_detail = {"kind": kind, "code": code, "count": len(model_bad), "expr": c["expr"], "mode": c["mode"], "t": c.get("t"),
                             "model_input": (c["model"]["series"][si] if c["model"].get("series") else c["model"]),
                             "explanation": "Coq model and engines disagree although upstream and server agree within tolerance"}
+    ties_broken = [c for c in cases if c.get("grouping_tie")]
+    ck.cov["grouping_tie_checked"] = sum(1 for c in cases if c["form"] == "binop")
+    if ties_broken and not unexplained:
+        c = ties_broken[0]
+        ck.broken.append("correspondence C18 by/without grouping: %s" % c["grouping_tie"])
+        ck.nofail_detail = {"kind": "transpiled-grouping", "count": len(ties_broken), "expr": c["expr"], "detail": c["grouping_tie"],
+                            "explanation": "the transpiler gives `aggregation <op> scalar` a different grouping (Without flag / dimensions) than the "
+                                           "aggregation itself; the model (group_key, C18_by_without_partition) says the label sets are unchanged. "
+                                           "Upstream and the single-node server agreed on every generated query of this shape."}
     if variant_current and not ck.match_finding("C18-rate-subsecond-range-integer-division"):
         ck.broken.append("server matches only the _current (integer division) variant of the rate model but the finding is not open")
 
@@ -277,7 +287,7 @@ def replay(ck, binp, srv, conf, wdir, port):
     rp = obj.get("replay") or obj
     path = os.path.join(ck.work, "replay.json")
     json.dump(rp, open(path, "w"))
-    rc, out = ck.run([binp, "replay", srv, conf, wdir, str(port), path], timeout=900)
+    rc, out = ck.run([binp, "replay", srv, conf, wdir, str(port), path], timeout=900, env={"HOME": ck.work})
     got = None
     for l in out.splitlines():
         if l.startswith("{"):
